@@ -104,17 +104,19 @@ def vio_keys(out):
 
 def neutral(props, base):
     """Behaviour-preserving variants of the tree must not add a report: (a) neutral/edits.diff (renamed locals, reordered arms,
-    matches! for match, map for and_then(Some), an extracted local, a complete hand-written Hash), (b) the whole tree re-formatted by rustfmt
+    matches! for match, map for and_then(Some), an extracted local, a complete hand-written Hash), (a') neutral/clippy_fix.diff, the machine-applicable
+    suggestions of `cargo clippy --fix` on the pinned tree (point-free closures, is_ok_and for map_or(false, ..), slice::from_ref, removed clones and closures ..), (b) the whole tree re-formatted by rustfmt
     with a narrow width (closure bodies and arm values gain braces, chains are re-wrapped)."""
     ok = True
     variants = []
-    d = make_copy(base)
-    r = subprocess.run(["patch", "-p1", "-s", "-d", d, "-i", os.path.join(VERIF, "neutral", "edits.diff")], capture_output=True, text=True)
-    if r.returncode == 0:
-        variants.append(("edits", d))
-    else:
-        print("skipped neutral:edits (the patch does not apply to this tree)")
-        shutil.rmtree(d, ignore_errors=True)
+    for name, fn in (("edits", "edits.diff"), ("clippy-fix", "clippy_fix.diff")):
+        d = make_copy(base)
+        r = subprocess.run(["patch", "-p1", "-s", "-f", "-d", d, "-i", os.path.join(VERIF, "neutral", fn)], capture_output=True, text=True)
+        if r.returncode == 0:
+            variants.append((name, d))
+        else:
+            print("skipped neutral:%s (the patch does not apply to this tree)" % name)
+            shutil.rmtree(d, ignore_errors=True)
     d = make_copy(base)
     fl = [os.path.join(dp, f) for dp, _, fs in os.walk(os.path.join(d, "src")) for f in fs if f.endswith(".rs")]
     r = subprocess.run(["rustfmt", "--edition", "2021", "--config", "max_width=72,fn_call_width=40,use_small_heuristics=Off"] + fl, capture_output=True, text=True)
